@@ -36,7 +36,9 @@ USE_PATTERNS = [
     [[("model", "LbAmpGen", ["DtoKpipipi_v1", "inf", "-nan", "dm", "Infinity"]), ("alias", "MA")]],
 ]
 MOTHERS = ["B0", "D+", "K*0"]
-R_EXPAND = [len(DEF_VARIANTS), 4, len(ALIAS_VARIANTS), 3, len(USE_PATTERNS), 3]
+# spelling of the two Define'd names: plain words, or legitimate names with inner hyphens / slashes (C05-m11: only a *leading* minus negates)
+NAME_MAPS = [{"dm": "dm", "beta": "beta"}, {"dm": "dm-Bs", "beta": "q/p_B-mix"}]
+R_EXPAND = [len(DEF_VARIANTS), 4, len(ALIAS_VARIANTS), 3, len(USE_PATTERNS), 3, len(NAME_MAPS)]
 N_EXPAND = prod(R_EXPAND)
 
 
@@ -67,8 +69,14 @@ def _place(blocks_txt, stmts_with_pos):
 
 
 def body_expand(sel: int) -> bool:
-    dv, dplace, av, aplace, up, extra = digits(sel, R_EXPAND)
-    defs, aliases, uses = DEF_VARIANTS[dv], ALIAS_VARIANTS[av], USE_PATTERNS[up]
+    dv, dplace, av, aplace, up, extra, nm = digits(sel, R_EXPAND)
+    nmap = NAME_MAPS[nm]
+
+    def ren(w):
+        return nmap.get(w, w) if w[:1] != "-" else "-" + nmap.get(w[1:], w[1:])
+    defs = [(ren(n), v) for n, v in DEF_VARIANTS[dv]]
+    aliases = [(a, m, [ren(x) for x in ps]) for a, m, ps in ALIAS_VARIANTS[av]]
+    uses = [[(sp if sp[0] == "alias" else (sp[0], sp[1], [ren(x) for x in sp[2]])) for sp in blk] for blk in USE_PATTERNS[up]]
     alias_names = {a for a, _, _ in aliases}
     used_aliases = {m[1] for blk in uses for m in blk if m[0] == "alias"}
     if not used_aliases <= alias_names:
